@@ -357,7 +357,9 @@ def api_worker(job):
         for ok in seq:
             # True: verdict converged; False: verdict not converged; "C": supply cut, the run fails in the connectivity
             # stage before any Newton loop
-            H.CTX.force_fail = ok is False
+            H.CTX.force_fail = ok is False or ok == "DF"
+            if ok == "DF":
+                _drop_all_of_one_type(net)      # every element of one component type is deleted, then the run fails
             cut = _cut_supply(net) if ok == "C" else None
             raised = None
             try:
@@ -401,6 +403,14 @@ def api_worker(job):
 FEEDERS = ("ext_grid", "circ_pump_pressure", "circ_pump_mass")
 
 
+def _drop_all_of_one_type(net):
+    for t in ("source", "mass_storage", "sink", "heat_consumer"):
+        if t in net and len(net[t]):
+            net[t] = net[t].iloc[0:0]
+            return t
+    return None
+
+
 def _cut_supply(net):
     saved = {}
     for t in FEEDERS:
@@ -423,7 +433,9 @@ def replay_api(rs):
     for i, ok in enumerate(rs["seq"]):
         kw = dict(mode=rs["pfmode"], use_numba=False)
         cut = _cut_supply(net) if ok == "C" else None
-        if ok is False:
+        if ok == "DF":
+            _drop_all_of_one_type(net)
+        if ok is False or ok == "DF":
             kw.update(max_iter_hyd=1, max_iter_therm=1, max_iter_bidirect=1, tol_p=1e-15, tol_m=1e-15, tol_T=1e-15, tol_res=1e-15)
         else:
             kw.update(max_iter_hyd=100, max_iter_therm=100, max_iter_bidirect=100)
@@ -683,8 +695,8 @@ def jobs(tier, seed):
                         continue
                     out.append({"name": "api/%s/%s/%s" % (s["name"], mode, "".join("S" if x else "F" for x in seq)), "kind": "api",
                                 "spec": s, "pfmode": mode, "seq": list(seq)})
-            for seq in ([True, "C"], [True, "C", True], ["C", True], [False, "C"], [True, False, "C"]):
-                out.append({"name": "api/%s/%s/%s" % (s["name"], mode, "".join("C" if x == "C" else "S" if x else "F" for x in seq)),
+            for seq in ([True, "C"], [True, "C", True], ["C", True], [False, "C"], [True, False, "C"], [True, "DF"], [True, "DF", True]):
+                out.append({"name": "api/%s/%s/%s" % (s["name"], mode, "".join(x if isinstance(x, str) else "S" if x else "F" for x in seq)),
                             "kind": "api", "spec": s, "pfmode": mode, "seq": list(seq)})
     out.append({"name": "guard/infeed", "kind": "guard"})
     from checks.c11 import specs as c11_specs
